@@ -324,6 +324,19 @@ Theorem c01_priority_admin : forall w i v,
 Proof. exact priority_admin_lemma. Qed.
 Print Assumptions c01_priority_admin.
 
+(* The empty frame (there is one empty frame, however the C++ buffer object came to be empty:
+   initialised with length 0, never initialised, or Reset()): when a patched port or a client delivers
+   it, the stored frame of that source IS empty and carries the new stamp, and the source is in no group
+   at any clock reading - its previous frame can not stay in the merge. *)
+Theorem c01_empty_frame : forall w i c prio ts now,
+  (mem i (u_inputs (w_u w)) = true ->
+   let s := p_src (w_ports (fst (step w (PortData i [] ts now))) i) in
+   s_data s = [] /\ s_ts s = ts /\ forall now' l, ~ In (Port i, s) (group now' l)) /\
+  (let s := w_csrc (fst (step w (ClientData c [] prio ts now))) c in
+   s_data s = [] /\ s_ts s = ts /\ forall now' l, ~ In (Client c, s) (group now' l)).
+Proof. exact empty_frame_lemma. Qed.
+Print Assumptions c01_empty_frame.
+
 (* No wrap-around of liveness, at any magnitude of time (time values are unbounded naturals here; there
    is no 2^31 / 2^32 us, ms or s beyond which an old frame comes back): a stored frame that is not live
    at some clock reading is not live at any later reading either, and is in no later group - a source
@@ -501,4 +514,15 @@ Example ex_priority_admin :
   let w' := fst (step w (MgrStatic 0 100)) in
   snd (step w' (PortData 0 [2] 12 12)) = [WriteDMX 5 [2] 100] /\
   snd (step (fst (step w' (MgrStatic 0 255))) (PortData 0 [3] 13 13)) = [WriteDMX 5 [3] 200].
+Proof. vm_compute. repeat split; reflexivity. Qed.
+
+(* an emptied source leaves the merge; a repeated identical signal (same frame, priority, stamp) inside
+   one event-loop pass is an update like any other and is handed out again *)
+Example ex_empty_and_duplicate :
+  let w := run [AddInput 0; AddInput 1; AddOutput 5; SetMode false; PortData 0 [0; 9] 10 10;
+                PortData 1 [7] 11 11; PortData 0 [] 12 12] in
+  snd (step w (PortData 1 [8] 13 13)) = [WriteDMX 5 [8] 100] /\
+  let v := run [AddInput 0; AddInput 1; AddOutput 5; PortData 0 [10] 10 10; PortData 1 [11] 10 10] in
+  snd (step v (PortData 0 [10] 10 10)) = [WriteDMX 5 [10] 100] /\
+  snd (step (fst (step v (PortData 0 [10] 10 10))) (PortData 0 [10] 10 10)) = [WriteDMX 5 [10] 100].
 Proof. vm_compute. repeat split; reflexivity. Qed.
